@@ -18,7 +18,13 @@
 
 /* precondition shared by the argument decoders: a NUL-terminated argument text of length g_len in
  * the command half, cursor inside it; ghosts cleared */
-#define DECODER_PRE(s) ( g_len < CAP_AT(s) && ABUF(s)[g_len] == 0 && (s)->position <= g_len && g_sat == 0 && g_ndig == 0 )
+#define DECODER_PRE(s) ( g_len < CAP_AT(s) && ABUF(s)[g_len] == 0 && (s)->position <= g_len && g_sat == 0 && g_ndig == 0 && g_size == 0 && g_nesc == 0 )
+/* the current variable: storage of exactly data_size bytes (1..64), access mode one of the three */
+#define VAR_PRE(s)     ( (s)->var->data_size >= 1 && (s)->var->data_size <= 64 && (s)->var->access >= CAT_VAR_ACCESS_READ_WRITE && (s)->var->access <= CAT_VAR_ACCESS_WRITE_ONLY )
+#define VDATA(s)       ((uint8_t *)((s)->var->data))
+#define NOTRO(s)       ((s)->var->access != CAT_VAR_ACCESS_READ_ONLY)
+#define POS0           OLD(self->position)
+#define LASTC          (ABUF(self)[self->position - 1])
 
 static int parse_uint_decimal(struct cat_object *self, uint64_t *ret)
 __CPROVER_requires(DECODER_PRE(self))
@@ -30,6 +36,89 @@ __CPROVER_assigns(self->position, *ret, g_sat, g_ndig)
 /* [C04:uint-accept]     */ __CPROVER_ensures(RET >= 0 ==> (self->position >= OLD(self->position) + 2 && V_ISTERM(ABUF(self)[self->position - 1]) && ((RET == 1) == (ABUF(self)[self->position - 1] == ','))))
 /* [C04:uint-exact]      */ __CPROVER_ensures(RET >= 0 ==> (g_sat <= 0xFFFFFFFFULL && *ret == g_sat))
 /* [C04:uint-reject]     */ __CPROVER_ensures(RET < 0 ==> (g_sat > 0xFFFFFFFFULL || (!V_ISDIGIT(ABUF(self)[self->position - 1]) && (self->position - 1 == OLD(self->position) || !V_ISTERM(ABUF(self)[self->position - 1])))))
+;
+
+
+#define SC0 (V_ISSIGN(ABUF(self)[POS0]) ? 1 : 0)
+static int parse_int_decimal(struct cat_object *self, int64_t *ret)
+__CPROVER_requires(DECODER_PRE(self))
+__CPROVER_assigns(self->position, *ret, g_sat, g_ndig)
+/* [C03,C04:int-cursor]  */ __CPROVER_ensures(POS0 < self->position && self->position <= g_len + 1)
+/* [C04:int-retcode]     */ __CPROVER_ensures(RET == -1 || RET == 0 || RET == 1)
+/* [C04:int-digits]      */ __CPROVER_ensures((POS0 + SC0 <= g_k && g_k < g_len && g_k + 1 < self->position) ==> V_ISDIGIT(ABUF(self)[g_k]))
+/* [C04:int-accept]      */ __CPROVER_ensures(RET >= 0 ==> (self->position >= POS0 + SC0 + 2 && g_ndig + SC0 + 1 == self->position - POS0 && V_ISTERM(LASTC) && ((RET == 1) == (LASTC == ','))))
+/* [C04:int-exact]       */ __CPROVER_ensures(RET >= 0 ==> (g_sat <= 0x80000000ULL && *ret == ((ABUF(self)[POS0] == '-') ? -(int64_t)g_sat : (int64_t)g_sat)))
+/* [C04:int-reject]      */ __CPROVER_ensures(RET < 0 ==> (g_sat > 0x80000000ULL || (!V_ISDIGIT(LASTC) && (g_ndig == 0 ? (self->position - 1 == POS0 ==> !V_ISSIGN(LASTC)) : !V_ISTERM(LASTC)))))
+/* [C04:int-ghost]       */ __CPROVER_ensures(RET < 0 ==> (g_sat > 0x80000000ULL ? g_ndig + SC0 == self->position - POS0 : (self->position - 1 == POS0 || g_ndig + SC0 + 1 == self->position - POS0)))
+;
+
+static int parse_num_hexadecimal(struct cat_object *self, uint64_t *ret)
+__CPROVER_requires(DECODER_PRE(self))
+__CPROVER_assigns(self->position, *ret, g_sat, g_ndig)
+/* [C03,C04:hex-cursor]  */ __CPROVER_ensures(POS0 < self->position && self->position <= g_len + 1)
+/* [C04:hex-retcode]     */ __CPROVER_ensures(RET == -1 || RET == 0 || RET == 1)
+/* [C04:hex-digits]      */ __CPROVER_ensures((POS0 + 2 <= g_k && g_k < g_len && g_k + 1 < self->position) ==> V_ISHEX(ABUF(self)[g_k]))
+/* [C04:hex-accept]      */ __CPROVER_ensures(RET >= 0 ==> (self->position >= POS0 + 4 && ABUF(self)[POS0] == '0' && V_ISX(ABUF(self)[POS0 + 1]) && g_ndig + 3 == self->position - POS0 && V_ISTERM(LASTC) && ((RET == 1) == (LASTC == ','))))
+/* [C04:hex-exact]       */ __CPROVER_ensures(RET >= 0 ==> (g_sat <= 0xFFFFFFFFULL && *ret == g_sat))
+/* [C04:hex-reject]      */ __CPROVER_ensures(RET < 0 ==> (g_sat > 0xFFFFFFFFULL || (self->position - 1 == POS0 && LASTC != '0') || (self->position - 1 == POS0 + 1 && !V_ISX(LASTC)) || (self->position - 1 >= POS0 + 2 && !V_ISHEX(LASTC) && (self->position - 1 == POS0 + 2 || !V_ISTERM(LASTC)))))
+/* [C04:hex-ghost]       */ __CPROVER_ensures((RET < 0 && self->position >= POS0 + 3) ==> (g_sat > 0xFFFFFFFFULL ? g_ndig + 2 == self->position - POS0 : g_ndig + 3 == self->position - POS0))
+;
+
+/* range validators: store iff the value fits the variable's width; read-only is never touched */
+#define UMAX_OF(ds) ((ds) == 1 ? 0xFFULL : (ds) == 2 ? 0xFFFFULL : 0xFFFFFFFFULL)
+#define UFITS(s, v) (((s)->var->data_size == 1 || (s)->var->data_size == 2 || (s)->var->data_size == 4) && (v) <= UMAX_OF((s)->var->data_size))
+#define ULOAD(s)    ((s)->var->data_size == 1 ? (uint64_t)*(uint8_t *)(s)->var->data : (s)->var->data_size == 2 ? (uint64_t)*(uint16_t *)(s)->var->data : (uint64_t)*(uint32_t *)(s)->var->data)
+static int validate_uint_range(struct cat_object *self, uint64_t val)
+__CPROVER_requires(VAR_PRE(self))
+__CPROVER_assigns(self->write_size; NOTRO(self) : __CPROVER_object_upto(self->var->data, self->var->data_size))
+/* [C08:uval-readonly]   */ __CPROVER_ensures(!NOTRO(self) ==> (RET == 0 && self->write_size == 0))
+/* [C04:uval-store]      */ __CPROVER_ensures((NOTRO(self) && UFITS(self, val)) ==> (RET == 0 && self->write_size == self->var->data_size && ULOAD(self) == val))
+/* [C04:uval-reject]     */ __CPROVER_ensures((NOTRO(self) && !UFITS(self, val)) ==> (RET == -1 && (g_j < self->var->data_size ==> VDATA(self)[g_j] == g_oldbyte)))
+;
+
+#define SMIN_OF(ds) ((ds) == 1 ? -128LL : (ds) == 2 ? -32768LL : -2147483648LL)
+#define SMAX_OF(ds) ((ds) == 1 ? 127LL : (ds) == 2 ? 32767LL : 2147483647LL)
+#define SFITS(s, v) (((s)->var->data_size == 1 || (s)->var->data_size == 2 || (s)->var->data_size == 4) && (v) >= SMIN_OF((s)->var->data_size) && (v) <= SMAX_OF((s)->var->data_size))
+#define SLOAD(s)    ((s)->var->data_size == 1 ? (int64_t)*(int8_t *)(s)->var->data : (s)->var->data_size == 2 ? (int64_t)*(int16_t *)(s)->var->data : (int64_t)*(int32_t *)(s)->var->data)
+static int validate_int_range(struct cat_object *self, int64_t val)
+__CPROVER_requires(VAR_PRE(self))
+__CPROVER_assigns(self->write_size; NOTRO(self) : __CPROVER_object_upto(self->var->data, self->var->data_size))
+/* [C08:sval-readonly]   */ __CPROVER_ensures(!NOTRO(self) ==> (RET == 0 && self->write_size == 0))
+/* [C04:sval-store]      */ __CPROVER_ensures((NOTRO(self) && SFITS(self, val)) ==> (RET == 0 && self->write_size == self->var->data_size && SLOAD(self) == val))
+/* [C04:sval-reject]     */ __CPROVER_ensures((NOTRO(self) && !SFITS(self, val)) ==> (RET == -1 && (g_j < self->var->data_size ==> VDATA(self)[g_j] == g_oldbyte)))
+;
+
+/* hex byte buffer: NT = number of text characters consumed before the last one */
+#define NT (self->position - 1 - POS0)
+static int parse_buffer_hexadecimal(struct cat_object *self)
+__CPROVER_requires(DECODER_PRE(self) && VAR_PRE(self))
+__CPROVER_requires(g_j < self->var->data_size ==> VDATA(self)[g_j] == g_oldbyte)
+__CPROVER_assigns(self->position, self->write_size, __CPROVER_object_upto(self->var->data, self->var->data_size))
+/* [C03,C05:bhex-cursor] */ __CPROVER_ensures(POS0 < self->position && self->position <= g_len + 1)
+/* [C05:bhex-retcode]    */ __CPROVER_ensures(RET == -1 || RET == 0 || RET == 1)
+/* [C05:bhex-digits]     */ __CPROVER_ensures((POS0 <= g_k && g_k < g_len && g_k + 1 < self->position) ==> V_ISHEX(ABUF(self)[g_k]))
+/* [C05:bhex-accept]     */ __CPROVER_ensures(RET >= 0 ==> (NT >= 2 && NT % 2 == 0 && NT / 2 <= self->var->data_size && V_ISTERM(LASTC) && ((RET == 1) == (LASTC == ','))))
+/* [C05,C08:bhex-size]   */ __CPROVER_ensures(RET >= 0 ==> self->write_size == (NOTRO(self) ? NT / 2 : 0))
+/* [C05:bhex-exact]      */ __CPROVER_ensures((RET >= 0 && NOTRO(self) && g_j < NT / 2) ==> VDATA(self)[g_j] == V_HEXVAL(ABUF(self)[POS0 + 2 * g_j]) * 16 + V_HEXVAL(ABUF(self)[POS0 + 2 * g_j + 1]))
+/* [C05,C08:bhex-rest]   */ __CPROVER_ensures((g_j < self->var->data_size && (!NOTRO(self) || g_j >= NT / 2)) ==> VDATA(self)[g_j] == g_oldbyte)
+/* [C05:bhex-reject]     */ __CPROVER_ensures(RET < 0 ==> ((!V_ISHEX(LASTC) && (!V_ISTERM(LASTC) || NT % 2 == 1 || NT == 0)) || (V_ISHEX(LASTC) && NT == 2 * self->var->data_size + 1)))
+;
+
+/* quoted string */
+#define SEXTRA (NT - 1 - g_size - g_nesc)
+static int parse_buffer_string(struct cat_object *self)
+__CPROVER_requires(DECODER_PRE(self) && VAR_PRE(self))
+__CPROVER_requires(g_j < self->var->data_size ==> VDATA(self)[g_j] == g_oldbyte)
+__CPROVER_assigns(self->position, self->write_size, g_size, g_nesc, g_src, g_esc, __CPROVER_object_upto(self->var->data, self->var->data_size))
+/* [C03,C05:str-cursor]  */ __CPROVER_ensures(POS0 < self->position && self->position <= g_len + 1)
+/* [C05:str-retcode]     */ __CPROVER_ensures(RET == -1 || RET == 0 || RET == 1)
+/* [C05:str-accept]      */ __CPROVER_ensures(RET >= 0 ==> (ABUF(self)[POS0] == '"' && NT >= 2 && ABUF(self)[self->position - 2] == '"' && NT == g_size + g_nesc + 2 && g_size + 1 <= self->var->data_size && V_ISTERM(LASTC) && ((RET == 1) == (LASTC == ','))))
+/* [C05,C08:str-size]    */ __CPROVER_ensures(RET >= 0 ==> self->write_size == (NOTRO(self) ? g_size : 0))
+/* [C05:str-nul]         */ __CPROVER_ensures((RET >= 0 && NOTRO(self)) ==> VDATA(self)[g_size] == 0)
+/* [C05:str-source]      */ __CPROVER_ensures((RET >= 0 && g_j < g_size) ==> (POS0 < g_src && g_src < self->position && g_src + 2 < self->position && (g_esc ? (V_ISESC(ABUF(self)[g_src]) && ABUF(self)[g_src - 1] == '\\') : (ABUF(self)[g_src] != '\\' && ABUF(self)[g_src] != '"' && ABUF(self)[g_src] != 0))))
+/* [C05:str-exact]       */ __CPROVER_ensures((RET >= 0 && NOTRO(self) && g_j < g_size && g_src < self->position) ==> VDATA(self)[g_j] == (uint8_t)(g_esc ? V_UNESC(ABUF(self)[g_src]) : ABUF(self)[g_src]))
+/* [C05,C08:str-rest]    */ __CPROVER_ensures((g_j < self->var->data_size && (!NOTRO(self) || g_j > g_size || (RET < 0 && g_j >= g_size))) ==> VDATA(self)[g_j] == g_oldbyte)
+/* [C05:str-reject]      */ __CPROVER_ensures(RET < 0 ==> ((NT == 0 && LASTC != '"') || (NT >= 1 && SEXTRA == 0 && (LASTC == 0 || (LASTC != '\\' && LASTC != '"' && g_size >= self->var->data_size))) || (NT >= 2 && SEXTRA == 1 && ABUF(self)[self->position - 2] == '\\' && (!V_ISESC(LASTC) || g_size >= self->var->data_size)) || (NT >= 2 && SEXTRA == 1 && ABUF(self)[self->position - 2] == '"' && (!V_ISTERM(LASTC) || g_size >= self->var->data_size))))
 ;
 
 #endif
